@@ -27,5 +27,10 @@ with ThreadPoolExecutor(4) as ex:
 old={}
 mp=os.path.join(VERIF,'seeded','MATRIX.json')
 if os.path.exists(mp): old=json.load(open(mp))
+if os.environ.get('VERIF_ONLY'):
+    # targeted run: keep the recorded outcome of the checks that were not run
+    for s_,f_ in res.items():
+        keep={k:v for k,v in old.get(s_,{}).items() if k not in os.environ['VERIF_ONLY'].split() and k!='APPLY'}
+        keep.update(f_); res[s_]=keep
 old.update(res)
 json.dump(old,open(mp,'w'),indent=1,sort_keys=True)
